@@ -40,7 +40,7 @@ def mc_runs(pid, quick):
         return [("stale shares x answer order x unavailable servers",
                  dict(NumServers=5, MaxVers=3, MaxDown=1, TamperClasses='{"prefixbad"}', RHs="{1, 2}", Forge="FALSE",
                       ReadOrder='"any"')),
-                ("6 servers, 3 versions", dict(NumServers=6, MaxVers=3, MaxTamper=2, TamperClasses="{}", Forge="FALSE",
+                ("6 servers, 3 versions", dict(NumServers=6, MaxVers=3, MaxTamper=3, TamperClasses="{}", Forge="FALSE",
                                                ReadOrder='"any"'))]
     if pid == "C14":
         if quick:
@@ -136,3 +136,18 @@ def run(ctx, pid):
                 (l, e["ev"], tr["consts"]["fmt"], tr["consts"]["scen"], clause,
                  json.dumps({k: v for k, v in e.items() if k not in ("L", "how")})[:300]))
     ctx.trace("mutable/TraceMutableFile", traces, cfg=cfg, key_of=key_of, what_of=what_of, batch=250)
+    if not quick:
+        # replay of Spec-enumerated layouts: every layout within MaxMods slots of the plain placement
+        gcfg = ("SPECIFICATION Spec\nCONSTANTS\n  K = 2\n  N = 3\n  MaxMods = 2\n"
+                "  GenClasses = {\"prefixbad\", \"softbad\", \"bodybad\", \"privbad\", \"chainbad\"}\nCHECK_DEADLOCK FALSE\n")
+        cases, r = ctx.gen("mutable/GenMutableLayouts", gcfg, timeout=1200)
+        if pid == "C11":
+            # version ordering: only stale, missing and duplicated intact shares
+            cases = [c for c in cases if all(x["cls"] in ("intact", "absent") for d in c["L"].values() for x in d.values())]
+        ctx.constants["GEN layouts"] = {"servers": 4, "MaxMods": 2, "cases": len(cases)}
+        gtraces = ctx.impl("harness/mutread_driver.py", ["--family", pid], input_obj=cases, timeout=6000)
+        for tr in gtraces:
+            ctx.count(json.dumps([e for e in tr["events"] if e["ev"] == "Layout"][0]["L"], sort_keys=True) + tr["consts"]["fmt"] + "gen")
+        ctx.notes.append("GEN: %d layouts enumerated by GenMutableLayouts.tla (all layouts within 2 slots of the plain placement of "
+                         "the newest version on 4 servers) replayed on real servers" % len(gtraces))
+        ctx.trace("mutable/TraceMutableFile", gtraces, cfg=cfg, key_of=key_of, what_of=what_of, batch=250)
